@@ -295,6 +295,13 @@ def run(F, R):
         from .. import optnorm as _on8
         cxt = terms.render(bco, _on8.simplify(_on8.inline_awaits(W, bco, agg[0][3][names.index("context")])), W, {})
         R.check("C08-R4", "load-before-first-use", "load(" in cxt and "poll(" in cxt, "context <- awaited Context::load(storage)", "the state machine's context is not the awaited result of Context::load: " + cxt[:200])
+        # .. the awaited value itself, not the result of handing it to something else first (`load(..).await.adjusted(now)`)
+        import re as _re8
+        if "load(" in cxt and "poll(" in cxt:
+            direct_ = bool(_re8.match(r"^poll\(", cxt)) and bool(_re8.search(r"@Ready\.0(\.\d+)*$", cxt))
+            m_ = _re8.match(r"^([A-Za-z_][A-Za-z0-9_:<>]*)\(", cxt)
+            R.check("C08-R4", "context-is-the-load-result", direct_, "the context field is the awaited load result itself",
+                    "the loaded context is passed through %s(..) before the state machine is built: a rebuilt machine does not present exactly the committed values" % (m_.group(1) if m_ else "another expression"))
         # .. and it is presented as loaded: nothing in build() writes into the loaded context before the machine exists
         edits = []
         for (bi_, si_, p_, r_) in bco.field_writes:
